@@ -149,7 +149,8 @@ class VHDX(AlignedStream):
                 # Seek into the bitmap to where we are relative in the cluster
                 self.fh.seek((sector_bitmap_entry.file_offset_mb * MB) + byte_idx)
                 # Read the bitmap for the amount of sectors we're interested in, rounded up
-                sector_bitmap = self.fh.read((read_count + 8 - 1) // 8)
+                # We start at bit_idx in the first byte, so account for the bits before it
+                sector_bitmap = self.fh.read((bit_idx + read_count + 8 - 1) // 8)
 
                 # Calculate runs from the bitmap and read from the correct source
                 relative_sector = 0
@@ -302,7 +303,7 @@ def _iter_partial_runs(bitmap: bytes, start_idx: int, length: int) -> Iterator[t
             length -= max_count
             start_idx = 0
         else:
-            for bit_idx in range(start_idx, min(length, 8)):
+            for bit_idx in range(start_idx, min(start_idx + length, 8)):
                 sector_type = (byte & (1 << bit_idx)) >> bit_idx
 
                 if sector_type == current_type:
@@ -313,6 +314,9 @@ def _iter_partial_runs(bitmap: bytes, start_idx: int, length: int) -> Iterator[t
                     current_count = 1
 
                 length -= 1
+
+            # Only the first byte starts at a bit offset
+            start_idx = 0
 
     if current_count:
         yield (current_type, current_count)
